@@ -47,7 +47,7 @@ func match(filter CompFilter, comp *ical.Component) (bool, error) {
 	}
 
 	var zeroDate time.Time
-	if filter.Start != zeroDate {
+	if filter.Start != zeroDate || filter.End != zeroDate {
 		match, err := matchCompTimeRange(filter.Start, filter.End, comp)
 		if err != nil {
 			return false, err
@@ -115,7 +115,7 @@ func matchPropFilter(filter PropFilter, comp *ical.Component) (bool, error) {
 	}
 
 	var zeroDate time.Time
-	if filter.Start != zeroDate {
+	if filter.Start != zeroDate || filter.End != zeroDate {
 		match, err := matchPropTimeRange(filter.Start, filter.End, field)
 		if err != nil {
 			return false, err
@@ -162,19 +162,16 @@ func matchCompTimeRange(start, end time.Time, comp *ical.Component) (bool, error
 		return false, err
 	}
 
-	// Event starts in time range
-	if eventStart.After(start) && (end.IsZero() || eventStart.Before(end)) {
-		return true, nil
+	// The event overlaps the time range if (start < DTEND AND end > DTSTART),
+	// or for a zero-length event (start <= DTSTART AND end > DTSTART). A zero
+	// start or end means the range is unbounded on that side.
+	if !end.IsZero() && !eventStart.Before(end) {
+		return false, nil
 	}
-	// Event ends in time range
-	if eventEnd.After(start) && (end.IsZero() || eventEnd.Before(end)) {
-		return true, nil
+	if eventEnd.After(eventStart) {
+		return eventEnd.After(start), nil
 	}
-	// Event covers entire time range plus some
-	if eventStart.Before(start) && (!end.IsZero() && eventEnd.After(end)) {
-		return true, nil
-	}
-	return false, nil
+	return !eventStart.Before(start), nil
 }
 
 func matchPropTimeRange(start, end time.Time, field *ical.Prop) (bool, error) {
@@ -184,7 +181,7 @@ func matchPropTimeRange(start, end time.Time, field *ical.Prop) (bool, error) {
 	if err != nil {
 		return false, err
 	}
-	if ptime.After(start) && (end.IsZero() || ptime.Before(end)) {
+	if !ptime.Before(start) && (end.IsZero() || ptime.Before(end)) {
 		return true, nil
 	}
 	return false, nil
